@@ -28,6 +28,17 @@ def settings(m, meta):
         KittyImage.set_render_method(None)
     if KittyImage._render_method != "lines":
         bad.append(("KittyImage default after unset", KittyImage._render_method))
+    # instance form: anything that is not None or a known method name is rejected, and the instance's own method stays
+    inst = SubK(img)
+    inst.set_render_method("whole")
+    for wrong in ("bogus", 5, 0, False, (), 0.0, b"", ""):
+        try:
+            inst.set_render_method(wrong)
+            bad.append(("instance form accepted", wrong, "own method now", vars(inst).get("_render_method", "<removed>")))
+        except (ValueError, TypeError):
+            if vars(inst).get("_render_method") != "whole":
+                bad.append(("instance form: rejected value changed state", wrong))
+        inst.set_render_method("whole")
     for wrong in ("bogus", 5):
         before = SubK.__dict__.get("_render_method", "<absent>")
         try:
@@ -162,8 +173,12 @@ def method_override(m, meta):
     from PIL import Image
     from term_image.image import ITerm2Image, KittyImage
     problems = []
-    img = Image.new("RGB", (40, 40), (10, 200, 30))
-    for cls, methods in ((KittyImage, ("lines", "whole")), (ITerm2Image, ("lines", "whole"))):
+    import term_image.geometry as G
+    tests.set_cell_size(G.Size(10, 20))
+    small = Image.new("RGB", (7, 5))           # fewer pixels than its render size: WHOLE sends it as it is, LINES at the full render size
+    small.putdata([(x * 30 % 256, y * 50 % 256, 90) for y in range(5) for x in range(7)])
+    for img, cls, methods in [(i_, c_, m_) for i_ in (Image.new("RGB", (40, 40), (10, 200, 30)), small)
+                              for c_, m_ in ((KittyImage, ("lines", "whole")), (ITerm2Image, ("lines", "whole")))]:
         saved = cls._supported
         cls._supported = True
         try:
